@@ -40,13 +40,27 @@ const (
 	nEndings
 )
 
+// ending of a BDAT (CHUNKING) body transfer
+const (
+	bdatComplete   = iota // chunks, the last one marked LAST
+	bdatZeroLast          // all chunks unmarked, then "BDAT 0 LAST"
+	bdatDataMid           // a DATA command between chunks (must be refused, transfer goes on)
+	bdatRset              // RSET after a chunk that was not the last
+	bdatDisconnect        // connection dropped after a chunk that was not the last
+	bdatQuit              // QUIT after a chunk that was not the last
+)
+
 type cTx struct {
 	Marker  string
 	From    string
 	UTF8    bool
 	Rcpts   []string
 	Ending  int
+	Chunks  int // 0: DATA; n>0: BDAT in n chunks
+	BdatEnd int
 	Payload []byte
+
+	ChunkReplies []actors.Reply // replies to BDAT chunks that were not the last
 
 	MailReply   actors.Reply
 	RcptReplies []actors.Reply
@@ -66,24 +80,24 @@ type client struct {
 }
 
 type world struct {
-	s       *simrt.Sim
-	a       *harness.Args
-	lmtp    bool
-	deferRj bool
-	limitN  int
+	s        *simrt.Sim
+	a        *harness.Args
+	lmtp     bool
+	deferRj  bool
+	limitN   int
 	limScope string
-	family  int
-	tgts    map[string]*actors.ScriptedTarget
-	plans   map[string][]*actors.StagePlan
-	checks  []*actors.ScriptedCheck
-	cplans  map[string][]*actors.CheckPlan
-	cseen   map[string]int
-	mod     *actors.ScriptedModifier
-	mplans  []*actors.ModPlan
-	mseen   int
-	endp    *smtpendp.Endpoint
-	net     *simnet.Net
-	clients []*client
+	family   int
+	tgts     map[string]*actors.ScriptedTarget
+	plans    map[string][]*actors.StagePlan
+	checks   []*actors.ScriptedCheck
+	cplans   map[string][]*actors.CheckPlan
+	cseen    map[string]int
+	mod      *actors.ScriptedModifier
+	mplans   []*actors.ModPlan
+	mseen    int
+	endp     *smtpendp.Endpoint
+	net      *simnet.Net
+	clients  []*client
 }
 
 var rcptPool = []string{"u1@a.example", "u2@a.example", "U3@A.EXAMPLE", "u4@b.example", "u5@b.example", "x@c.example", "ü6@a.example", "u7@xn--e1aybc.example"}
@@ -326,6 +340,10 @@ func (w *world) genClients() {
 			if s.T.Choose(st, 3) == 0 {
 				tx.Ending = s.T.Choose(st, nEndings)
 			}
+			if s.T.Choose(st, 3) == 0 {
+				tx.Chunks = 1 + s.T.Choose(st, 3)
+				tx.BdatEnd = []int{bdatComplete, bdatComplete, bdatComplete, bdatZeroLast, bdatDataMid, bdatRset, bdatDisconnect, bdatQuit}[s.T.Choose(st, 8)]
+			}
 			body := "Subject: sim " + tx.Marker + "\r\nX-Sim-Tx: " + tx.Marker + "\r\n"
 			if s.T.Choose(st, 8) == 0 {
 				body += "TLS-Required: No\r\n"
@@ -406,26 +424,99 @@ func (w *world) runClient(c *client) {
 			tx.Done = true
 			continue
 		}
-		tx.DataReply = cl.Cmd("DATA")
-		if tx.DataReply.Err != "" {
-			return
+		anyRcpt := false
+		for _, rr := range tx.RcptReplies {
+			if rr.OK() {
+				anyRcpt = true
+			}
 		}
-		if tx.DataReply.Code != 354 {
-			tx.Done = true
-			// the transaction stays open on the server; reset it
-			cl.Cmd("RSET")
-			stale = 0
-			continue
-		}
-		if tx.Ending == endDisconnectMidData {
-			cl.Send(tx.Payload[:len(tx.Payload)/2])
-			s.Stat("client_disconnect_mid_data")
-			conn.Close()
-			return
-		}
-		s.Logf("%s > (message %s, %d bytes)", c.name, tx.Marker, len(tx.Payload))
-		if err := cl.Send(actors.DotStuff(tx.Payload)); err != nil {
-			return
+		// (without an accepted recipient go-smtp refuses BDAT before reading the
+		// chunk, which a pipelining client cannot recover from: use DATA there)
+		if tx.Chunks > 0 && anyRcpt {
+			// CHUNKING: the server feeds the chunks to the session through a
+			// pipe from a goroutine of its own
+			s.Stat("client_bdat")
+			parts := splitChunks(tx.Payload, tx.Chunks)
+			interrupted := tx.BdatEnd == bdatRset || tx.BdatEnd == bdatDisconnect || tx.BdatEnd == bdatQuit
+			unmarked := len(parts) - 1
+			switch {
+			case tx.BdatEnd == bdatZeroLast:
+				unmarked = len(parts)
+			case interrupted && unmarked == 0:
+				unmarked = 1
+			}
+			early := false
+			for i := 0; i < unmarked; i++ {
+				s.Logf("%s > BDAT %d (chunk %d of %s)", c.name, len(parts[i]), i+1, tx.Marker)
+				if err := cl.Send(append([]byte(fmt.Sprintf("BDAT %d\r\n", len(parts[i]))), parts[i]...)); err != nil {
+					return
+				}
+				rr := cl.ReadReply()
+				tx.ChunkReplies = append(tx.ChunkReplies, rr)
+				if rr.Err != "" {
+					return
+				}
+				if rr.Code != 250 {
+					early = true
+					break
+				}
+				if tx.BdatEnd == bdatDataMid && i == 0 {
+					cl.Cmd("DATA")
+				}
+			}
+			if early {
+				// the server gave up on the transaction and reset it
+				tx.Done = true
+				stale = 0
+				continue
+			}
+			switch tx.BdatEnd {
+			case bdatRset:
+				s.Stat("client_bdat_rset")
+				cl.Cmd("RSET")
+				stale = 0
+				tx.Done = true
+				continue
+			case bdatDisconnect:
+				s.Stat("client_bdat_disconnect")
+				conn.Close()
+				return
+			case bdatQuit:
+				s.Stat("client_bdat_quit")
+				cl.Cmd("QUIT")
+				conn.Close()
+				return
+			}
+			var last []byte
+			if unmarked < len(parts) {
+				last = parts[len(parts)-1]
+			}
+			s.Logf("%s > BDAT %d LAST (%s)", c.name, len(last), tx.Marker)
+			if err := cl.Send(append([]byte(fmt.Sprintf("BDAT %d LAST\r\n", len(last))), last...)); err != nil {
+				return
+			}
+		} else {
+			tx.DataReply = cl.Cmd("DATA")
+			if tx.DataReply.Err != "" {
+				return
+			}
+			if tx.DataReply.Code != 354 {
+				tx.Done = true
+				// the transaction stays open on the server; reset it
+				cl.Cmd("RSET")
+				stale = 0
+				continue
+			}
+			if tx.Ending == endDisconnectMidData {
+				cl.Send(tx.Payload[:len(tx.Payload)/2])
+				s.Stat("client_disconnect_mid_data")
+				conn.Close()
+				return
+			}
+			s.Logf("%s > (message %s, %d bytes)", c.name, tx.Marker, len(tx.Payload))
+			if err := cl.Send(actors.DotStuff(tx.Payload)); err != nil {
+				return
+			}
 		}
 		tx.SentBody = true
 		n := 1
@@ -571,7 +662,7 @@ func (w *world) shape() string {
 	fmt.Fprintf(&sb, "lmtp=%v defer=%v lim=%d fam=%d chk=%d mod=%v|", w.lmtp, w.deferRj, w.limitN, w.family, len(w.checks), w.mod != nil)
 	for _, c := range w.clients {
 		for _, tx := range c.txs {
-			fmt.Fprintf(&sb, "[%s f=%q u=%v r=%d e=%d]", c.name, tx.From, tx.UTF8, len(tx.Rcpts), tx.Ending)
+			fmt.Fprintf(&sb, "[%s f=%q u=%v r=%d e=%d b=%d/%d]", c.name, tx.From, tx.UTF8, len(tx.Rcpts), tx.Ending, tx.Chunks, tx.BdatEnd)
 		}
 	}
 	return sb.String()
@@ -663,6 +754,16 @@ func (w *world) oracleC03() {
 				// replies can no longer be attributed to this transaction's
 				// recipients with certainty
 				continue
+			}
+			if !tx.SentBody {
+				// the client gave the transaction up before the end of the body
+				for tn, l := range byMarker[tx.Marker] {
+					for _, t := range l {
+						if t.Commits > 0 {
+							s.Violate("C03/commit-of-abandoned", "transaction %s was abandoned by the client before the end of its body (ending %d/%d), yet delivery tx%d on target %s was committed", tx.Marker, tx.Ending, tx.BdatEnd, t.N, tn)
+						}
+					}
+				}
 			}
 			if !tx.SentBody || len(tx.Final) == 0 {
 				// never answered: nothing may have been committed unless the
@@ -757,6 +858,25 @@ func (w *world) oracleC03() {
 	}
 }
 
+// splitChunks cuts b into n non-empty pieces (fewer if b is short); the first
+// cut falls inside the header so that header parsing spans chunks.
+func splitChunks(b []byte, n int) [][]byte {
+	var out [][]byte
+	for n > 1 && len(b) > 1 {
+		k := len(b) / n
+		if len(out) == 0 && k > 10 {
+			k = 10
+		}
+		if k == 0 {
+			k = 1
+		}
+		out = append(out, b[:k])
+		b = b[k:]
+		n--
+	}
+	return append(out, b)
+}
+
 func contains(xs []string, x string) bool {
 	for _, y := range xs {
 		if y == x {
@@ -804,6 +924,9 @@ func (w *world) oracleC16() {
 				check("RCPT", tx.UTF8, rr)
 			}
 			check("DATA", tx.UTF8, tx.DataReply)
+			for _, f := range tx.ChunkReplies {
+				check("DATA", tx.UTF8, f)
+			}
 			for _, f := range tx.Final {
 				check("DATA", tx.UTF8, f)
 			}
